@@ -33,6 +33,7 @@ package wal
 //@     assert [no-underflow] blockSize >= 4 && arg1 == int(blockSize) - 4
 //@   site call it.decompressMetricNames #1:
 //@     assert [crc-gate] calculatedChecksum == checksum && calculatedChecksum == uf("crc32", uint32, it.readBuf)
+//@   bounded wal/mnamewal_replay_test.go Test_Bounded_MNameWalReplay every sequence of at most 3 appended blocks, each one of 4 non-empty name lists of different sizes (84 files), written with the real writer and read back with the real iterator, values taken at once and compared after the whole file was read: the names come back exactly as appended (strings are opaque to the verifier, so that a replayed name is a COPY of the decoded bytes, not a view of a reused buffer, is only covered here)
 //@ end
 
 //@ func (*Wal).writeBlockToFile
